@@ -226,7 +226,7 @@ func (x *Exec) verify(fn *ssa.Function, c *Contract) {
 		if r.Label != "" && instOnly[r.Label] {
 			continue
 		}
-		g, note := safeEval(env, r)
+		g, note := safeEval(env.withPol(2), r)
 		if note != "" {
 			// the precondition no longer makes sense for this function (parameter renamed,
 			// method replaced by a promoted one, ...): the contract is not met
@@ -239,7 +239,7 @@ func (x *Exec) verify(fn *ssa.Function, c *Contract) {
 		if r.Label != "" && instOnly[r.Label] {
 			continue
 		}
-		st.assume(env.evalBool(r))
+		st.assume(env.hyp(r))
 	}
 	// struct invariants of pointer parameters are part of the precondition
 	for i, p := range fn.Params {
@@ -304,6 +304,16 @@ func (x *Exec) verify(fn *ssa.Function, c *Contract) {
 			}
 			return
 		}
+		// ghost statements at normal exit
+		var exitGhost []AfterClause
+		for _, a := range c.After {
+			if a.Callee == "exit" {
+				exitGhost = append(exitGhost, a)
+			}
+		}
+		if len(exitGhost) > 0 {
+			x.runGhost(s, fr, e2, exitGhost, 0)
+		}
 		if exact {
 			old := *e2
 			old.inOld = true
@@ -354,7 +364,10 @@ func safeEval(env *CEnv, cl Clause) (goal Tm, note string) {
 			panic(r)
 		}
 	}()
-	return env.evalBool(cl), ""
+	if env.pol == 2 {
+		return env.hyp(cl), ""
+	}
+	return env.goal(cl), ""
 }
 
 // assumeStructInv assumes declared struct invariants for a pointer-to-struct value.
@@ -370,7 +383,7 @@ func (x *Exec) assumeStructInv(st *State, env *CEnv, v *Val, t types.Type) {
 	for _, inv := range x.cs.Invs {
 		if inv.Type == named {
 			sub := &CEnv{x: x, st: st, vars: map[string]*Val{"self": v}, pkg: inv.Pkg, oldHeap: env.oldHeap, contract: env.contract}
-			st.assume(tm(SBool, "(=> (not (= %s 0)) %s)", v.S.S, sub.evalBool(inv.Cl).S))
+			st.assume(tm(SBool, "(=> (not (= %s 0)) %s)", v.S.S, sub.hyp(inv.Cl).S))
 		}
 	}
 }
@@ -436,7 +449,7 @@ func (ld *Loaded) verifyLemma(l *Lemma) *FuncResult {
 				x.inputTerms = append(x.inputTerms, t.S)
 			}
 		}
-		goal := env.evalBool(l.Cl)
+		goal := env.goal(l.Cl)
 		if len(l.Split) == 0 {
 			x.emit(st, "lemma:"+l.Name, "lemma", goal, l.Cl.Src)
 			return
